@@ -331,8 +331,29 @@ pub fn with(r: &mut Ref, w: &With) -> String {
         .iter()
         .map(|c| {
             let mut t = r.id(&c.name);
-            if !c.cols.is_empty() {
-                let cols: Vec<String> = c.cols.iter().map(|x| r.id(x)).collect();
+            // `from_select`: the documented inference — every select item named (alias, or a column: its name,
+            // `table_column` when qualified) gives the column list, otherwise there is none
+            let inferred: Vec<String> = if c.infer {
+                match &*c.body {
+                    CteBody::Sel(q) => q
+                        .items
+                        .iter()
+                        .map(|it| match (&it.alias, &it.expr) {
+                            (Some(a), _) => Some(a.clone()),
+                            (None, X::Col(c)) => Some(c.to_string()),
+                            (None, X::QCol(t, c)) => Some(format!("{t}_{c}")),
+                            _ => None,
+                        })
+                        .collect::<Option<Vec<String>>>()
+                        .unwrap_or_default(),
+                    _ => vec![],
+                }
+            } else {
+                vec![]
+            };
+            let cols_src = if c.infer { &inferred } else { &c.cols };
+            if !cols_src.is_empty() {
+                let cols: Vec<String> = cols_src.iter().map(|x| r.id(x)).collect();
                 t.push_str(&format!(" ({})", cols.join(", ")));
             }
             t.push_str(" AS ");
